@@ -12,6 +12,9 @@ type SDT struct {
 	Properties *SDTProperties `xml:"w:sdtPr"`
 	EndPr      *SDTEndPr      `xml:"w:sdtEndPr,omitempty"`
 	Content    *SDTContent    `xml:"w:sdtContent"`
+
+	// tocMaxLevel 记录生成目录时请求的最大级别，供 UpdateTOC 重建时使用（不序列化）
+	tocMaxLevel int
 }
 
 // ElementType 返回SDT元素类型
@@ -129,6 +132,7 @@ func (d *Document) CreateTOCSDT(title string, maxLevel int) *SDT {
 		Content: &SDTContent{
 			Elements: []interface{}{},
 		},
+		tocMaxLevel: maxLevel,
 	}
 
 	// 添加目录标题段落
